@@ -10,9 +10,9 @@ CFG = {
             2500
         ]
     ],
-    "rule": "frameown: the real library under an ownership-tracking, poisoning, never-reusing FramePool (ConnectionOptions.FramePool). 50% fo_raw: 1..7 scripted items per connection from a spec-built raw peer against a real server (valid calls of 1..n fragments with echo / application error / system error / missing handler, bad checksum at every fragment position incl. arg1 spanning fragments, calls that stop mid-way until the deadline, ping, unassigned frame type, continuation and error frames for unknown ids, unknown checksum type, protocol-error frame, truncated frame); 15% fo_direct real client <-> server (1..4 calls, 0..140000-byte arguments); 15% fo_relay client -> relay -> server incl. arg2 appends (relayFragmentSender); each of these is replayed as a label list through the extracted model, whose predicted fate of every frame (Get site, Release site(s)) must equal the pool's record. 20% fo_chaos, oracle only: deadlines shorter than the handler, cancellation in flight, relay drops with a 2-frame send buffer and a stalled destination, server / relay destination killed mid-call, relay timer vs slow destination, random hostile frames, 8 concurrent mixed calls. Oracle on every case: no frame released twice, none released that the pool did not hand out, poison of released frames intact, results equal what was sent, and all frames released on fault-free scenarios. Non-trivial = more than two frames; distinct by label list / scenario.",
+    "rule": "frameown: the real library under an ownership-tracking, poisoning, never-reusing FramePool (ConnectionOptions.FramePool). 50% fo_raw: 1..7 scripted items per connection from a spec-built raw peer against a real server (valid calls of 1..n fragments with echo / application error / system error / missing handler, bad checksum at every fragment position incl. arg1 spanning fragments, calls that stop mid-way until the deadline, ping, unassigned frame type, continuation and error frames for unknown ids, unknown checksum type, protocol-error frame, truncated frame); 15% fo_direct real client <-> server (1..4 calls, 0..140000-byte arguments); 15% fo_relay client -> relay -> server incl. arg2 appends (relayFragmentSender); each of these is replayed as a label list through the extracted model, whose predicted fate of every frame (Get site, Release site(s)) must equal the pool's record. 20% fo_chaos, oracle only: deadlines shorter than the handler, cancellation in flight, relay drops with a 2-frame send buffer and a stalled destination, server / relay destination killed mid-call, relay timer vs slow destination, random hostile frames, 8 concurrent mixed calls. plus the directed family fo_latch (max(12, n/10) cases x 6 rounds, after the other families so that their seeds are unchanged): frames handed to an exchange AFTER its error was latched -- real client, raw peer streaming an F-fragment response (2..6 fragments, checksum none/crc32/crc32c); the application reads the first fragment, Close()s the connection gracefully, the peer sends a ping (ping on a non-active connection = protocol error = stopExchanges), then 1..4 continuation frames and a marker ping, optionally the application reads on into the next fragment and the peer sends 0..2 more frames, then the application reads to the end; rounds alternate between the poisoning pool and a non-poisoning pool (a stale reference then keeps working as with sync.Pool and shows up as a second release). On correct code every frame's fate is deterministic (queued while recvCh has room although errCh is notified, refused when full, refused from then on = frameDropped) and is compared with the model; extra oracles of this family: no log line carries the header of a released frame (poisoned id), the response data seen by the application is a fragment-aligned prefix of what the peer sent, without poison. Oracle on every case: no frame released twice, none released that the pool did not hand out, poison of released frames intact, results equal what was sent, and all frames released on fault-free scenarios. Non-trivial = more than two frames; distinct by label list / scenario.",
     "trusted_base": COMMON_TRUSTED + [
-        "modelled by hand (tied by correspondence on the frames' fates and by the regenerated call-site list): readFrames/handleFrame*/writeFrames/sendMessage/SendSystemError/recvMessage, handleCallReq/dispatchInbound/InboundCallResponse.SendSystemError, reqResReader/reqResWriter fragment handling, readableFragment.done, recvAndParseNextFragment, forwardPeerFrame/recvPeerFrameOfType, relay Relay/Receive/handleLocalCallReq/relayFragmentSender, preinit read/writeMessage; regenerated from source each run: Gen/GenSites.v pool_sites (every FramePool.Get/Release call site), mexChannelBufferSize",
+        "modelled by hand (tied by correspondence on the frames' fates and by the regenerated call-site list): readFrames/handleFrame*/writeFrames/sendMessage/SendSystemError/recvMessage, handleCallReq/dispatchInbound/InboundCallResponse.SendSystemError, reqResReader/reqResWriter fragment handling, readableFragment.done, recvAndParseNextFragment, forwardPeerFrame/recvPeerFrameOfType, relay Relay/Receive/handleLocalCallReq/relayFragmentSender, preinit read/writeMessage; forwardPeerFrame is modelled as on the tree with the frameDropped repair (refuse every later frame once one was refused); regenerated from source each run: Gen/GenSites.v pool_sites (every FramePool.Get/Release call site), mexChannelBufferSize",
         "abstractions (over-approximations): frames are tokens without contents; argument state machines of fragmentingReader/Writer reduced to err/complete flags (C01 models them); relay item lookups, connection-state reads and parse results are label-supplied; exchange keys name exchange instances",
         "the list of ACCESS sites (where the library touches a frame's bytes) is hand-written; its completeness rests on the poisoning pool runs",
         "harness/overlay/zz_verif_c12.go: VerifPoisonFrame / VerifFramePoisonIntact",
@@ -20,6 +20,7 @@ CFG = {
     "assumptions": [
         "application contract: a handler does not go on reading request arguments after InboundCallResponse.SendSystemError (C12_contract_needed shows the reader would copy out of a released frame otherwise)",
         "relay hosts do not retain CallFrame/RespFrame after the callback returns",
+        "per-call completeness (C12_completed_call_holds_no_frame, C12_faultfree_call_released) is stated for calls that completed without a fault (reader complete, writer complete without error, not through SendSystemError / failed dispatch) and whose recvCh is drained; each side condition is shown necessary by a witness run (C12_call_drained_needed, C12_call_quit_needed, C12_call_werr_needed); fragments the call wrote may still wait in a connection's send queue (they belong to the writer loop)",
         "C12_faultfree_all_released is stated for runs without the enumerated frame-dropping steps (Model.FrameOwn.loses: frame for an unknown/finished exchange or swallowed by a tombed relay item, unparsable/unexpected frame taken from an exchange, message.write failing on a fresh frame, control message for a full send buffer) -- these leaks are permitted by the statement and documented, not reported",
         "use after release is only visible to the harness as damaged poison (writes) or poison in results (reads); reads that do not influence a result are covered by the model's access sites only"
     ],
